@@ -193,13 +193,9 @@ impl Transaction {
                 // }
 
                 let txout = tx.get_output(n_tx_in).ok_or_else(|| BSVErrors::OutOfBounds(format!("Could not get TxOut at index {}", n_tx_in)))?;
-                tx.outputs = vec![txout];
-
-                for i in 0..tx.outputs.len() {
-                    if i < n_tx_in {
-                        tx.set_output(i, &TxOut::new(0xffffffffffffffff, &Script::default()));
-                    }
-                }
+                // Outputs before the signed one are blanked (value -1, empty script), outputs after it are dropped
+                tx.outputs = vec![TxOut::new(0xffffffffffffffff, &Script::default()); n_tx_in];
+                tx.outputs.push(txout);
 
                 for i in 0..tx.inputs.len() {
                     if i == n_tx_in {
